@@ -501,7 +501,11 @@ fn aliasing_body(paged_bank: Option<u8>) {
         _ => false,
     };
     kani::assert(got == if same { d } else { 0 }, "c06.alias.read_back_iff_same_bank_and_offset");
-    kani::cover!(same && a1 != a2, "one bank seen through two windows");
+    let two_windows_possible = match paged_bank {
+        None => true,
+        Some(k) => k == 2 || k == 5,
+    };
+    kani::cover!(same && (a1 != a2) == two_windows_possible, "read back (through a second window where the bank has one)");
     kani::cover!(!same && (a1 & 0x3FFF) == (a2 & 0x3FFF) && a2 >= 0x4000 && a1 >= 0x4000, "same offset, different banks");
 }
 
@@ -525,12 +529,12 @@ fn c06_window_aliasing() {
 
 // @harness
 // @prop C06
-// @tier quick
+// @tier thorough
 // @timeout 900
 // @fn Z80Bus::write (default) -> ZXController::write_internal -> ZXMemory::write; Z80Bus::read; ZXMemory::paged_address; ZXController::write_7ffd
 // @sym 128K latch with bank 0 at 0xC000 (other bits and history symbolic), write through 0xC000 window at offset in {0, 0x1AFF, 0x3FFF}, data, read address a2 (all 65536)
 // @assert a byte written through the paged window is read back at a2 exactly when a2 denotes bank 0 at the same offset (through 0xC000, and through 0x4000/0x8000 when bank 0 is 5/2); nothing else changes
-// @assume bank at 0xC000 == 0 (one query per bank: quick 0,5,7; thorough all 8)
+// @assume bank at 0xC000 == 0 (one query per bank: quick 2,5,7; thorough all 8)
 // @bound one write + one read
 // @stub ZXScreen::process_clocks -> no-op; ZXScreen::update -> no-op
 // @replay solver-only
@@ -549,7 +553,7 @@ fn c06_paged_window_aliasing_bank0() {
 // @fn Z80Bus::write (default) -> ZXController::write_internal -> ZXMemory::write; Z80Bus::read; ZXMemory::paged_address; ZXController::write_7ffd
 // @sym 128K latch with bank 1 at 0xC000 (other bits and history symbolic), write through 0xC000 window at offset in {0, 0x1AFF, 0x3FFF}, data, read address a2 (all 65536)
 // @assert a byte written through the paged window is read back at a2 exactly when a2 denotes bank 1 at the same offset (through 0xC000, and through 0x4000/0x8000 when bank 1 is 5/2); nothing else changes
-// @assume bank at 0xC000 == 1 (one query per bank: quick 0,5,7; thorough all 8)
+// @assume bank at 0xC000 == 1 (one query per bank: quick 2,5,7; thorough all 8)
 // @bound one write + one read
 // @stub ZXScreen::process_clocks -> no-op; ZXScreen::update -> no-op
 // @replay solver-only
@@ -563,12 +567,12 @@ fn c06_paged_window_aliasing_bank1() {
 
 // @harness
 // @prop C06
-// @tier thorough
+// @tier quick
 // @timeout 900
 // @fn Z80Bus::write (default) -> ZXController::write_internal -> ZXMemory::write; Z80Bus::read; ZXMemory::paged_address; ZXController::write_7ffd
 // @sym 128K latch with bank 2 at 0xC000 (other bits and history symbolic), write through 0xC000 window at offset in {0, 0x1AFF, 0x3FFF}, data, read address a2 (all 65536)
 // @assert a byte written through the paged window is read back at a2 exactly when a2 denotes bank 2 at the same offset (through 0xC000, and through 0x4000/0x8000 when bank 2 is 5/2); nothing else changes
-// @assume bank at 0xC000 == 2 (one query per bank: quick 0,5,7; thorough all 8)
+// @assume bank at 0xC000 == 2 (one query per bank: quick 2,5,7; thorough all 8)
 // @bound one write + one read
 // @stub ZXScreen::process_clocks -> no-op; ZXScreen::update -> no-op
 // @replay solver-only
@@ -587,7 +591,7 @@ fn c06_paged_window_aliasing_bank2() {
 // @fn Z80Bus::write (default) -> ZXController::write_internal -> ZXMemory::write; Z80Bus::read; ZXMemory::paged_address; ZXController::write_7ffd
 // @sym 128K latch with bank 3 at 0xC000 (other bits and history symbolic), write through 0xC000 window at offset in {0, 0x1AFF, 0x3FFF}, data, read address a2 (all 65536)
 // @assert a byte written through the paged window is read back at a2 exactly when a2 denotes bank 3 at the same offset (through 0xC000, and through 0x4000/0x8000 when bank 3 is 5/2); nothing else changes
-// @assume bank at 0xC000 == 3 (one query per bank: quick 0,5,7; thorough all 8)
+// @assume bank at 0xC000 == 3 (one query per bank: quick 2,5,7; thorough all 8)
 // @bound one write + one read
 // @stub ZXScreen::process_clocks -> no-op; ZXScreen::update -> no-op
 // @replay solver-only
@@ -606,7 +610,7 @@ fn c06_paged_window_aliasing_bank3() {
 // @fn Z80Bus::write (default) -> ZXController::write_internal -> ZXMemory::write; Z80Bus::read; ZXMemory::paged_address; ZXController::write_7ffd
 // @sym 128K latch with bank 4 at 0xC000 (other bits and history symbolic), write through 0xC000 window at offset in {0, 0x1AFF, 0x3FFF}, data, read address a2 (all 65536)
 // @assert a byte written through the paged window is read back at a2 exactly when a2 denotes bank 4 at the same offset (through 0xC000, and through 0x4000/0x8000 when bank 4 is 5/2); nothing else changes
-// @assume bank at 0xC000 == 4 (one query per bank: quick 0,5,7; thorough all 8)
+// @assume bank at 0xC000 == 4 (one query per bank: quick 2,5,7; thorough all 8)
 // @bound one write + one read
 // @stub ZXScreen::process_clocks -> no-op; ZXScreen::update -> no-op
 // @replay solver-only
@@ -625,7 +629,7 @@ fn c06_paged_window_aliasing_bank4() {
 // @fn Z80Bus::write (default) -> ZXController::write_internal -> ZXMemory::write; Z80Bus::read; ZXMemory::paged_address; ZXController::write_7ffd
 // @sym 128K latch with bank 5 at 0xC000 (other bits and history symbolic), write through 0xC000 window at offset in {0, 0x1AFF, 0x3FFF}, data, read address a2 (all 65536)
 // @assert a byte written through the paged window is read back at a2 exactly when a2 denotes bank 5 at the same offset (through 0xC000, and through 0x4000/0x8000 when bank 5 is 5/2); nothing else changes
-// @assume bank at 0xC000 == 5 (one query per bank: quick 0,5,7; thorough all 8)
+// @assume bank at 0xC000 == 5 (one query per bank: quick 2,5,7; thorough all 8)
 // @bound one write + one read
 // @stub ZXScreen::process_clocks -> no-op; ZXScreen::update -> no-op
 // @replay solver-only
@@ -644,7 +648,7 @@ fn c06_paged_window_aliasing_bank5() {
 // @fn Z80Bus::write (default) -> ZXController::write_internal -> ZXMemory::write; Z80Bus::read; ZXMemory::paged_address; ZXController::write_7ffd
 // @sym 128K latch with bank 6 at 0xC000 (other bits and history symbolic), write through 0xC000 window at offset in {0, 0x1AFF, 0x3FFF}, data, read address a2 (all 65536)
 // @assert a byte written through the paged window is read back at a2 exactly when a2 denotes bank 6 at the same offset (through 0xC000, and through 0x4000/0x8000 when bank 6 is 5/2); nothing else changes
-// @assume bank at 0xC000 == 6 (one query per bank: quick 0,5,7; thorough all 8)
+// @assume bank at 0xC000 == 6 (one query per bank: quick 2,5,7; thorough all 8)
 // @bound one write + one read
 // @stub ZXScreen::process_clocks -> no-op; ZXScreen::update -> no-op
 // @replay solver-only
@@ -663,7 +667,7 @@ fn c06_paged_window_aliasing_bank6() {
 // @fn Z80Bus::write (default) -> ZXController::write_internal -> ZXMemory::write; Z80Bus::read; ZXMemory::paged_address; ZXController::write_7ffd
 // @sym 128K latch with bank 7 at 0xC000 (other bits and history symbolic), write through 0xC000 window at offset in {0, 0x1AFF, 0x3FFF}, data, read address a2 (all 65536)
 // @assert a byte written through the paged window is read back at a2 exactly when a2 denotes bank 7 at the same offset (through 0xC000, and through 0x4000/0x8000 when bank 7 is 5/2); nothing else changes
-// @assume bank at 0xC000 == 7 (one query per bank: quick 0,5,7; thorough all 8)
+// @assume bank at 0xC000 == 7 (one query per bank: quick 2,5,7; thorough all 8)
 // @bound one write + one read
 // @stub ZXScreen::process_clocks -> no-op; ZXScreen::update -> no-op
 // @replay solver-only
@@ -1154,7 +1158,7 @@ fn refresh_body() {
 // @sym machine, witness byte value, display bank (48K screen / bank 5 / bank 7), witness offset 0..3
 // @assert the refresh after a snapshot / screen-file load forwards the bytes of each displayable RAM bank to the display copy of THAT bank at the same offset: the witness arrives exactly once as (offset, bank, value) and nothing else arrives non-zero
 // @bound page slices shortened to 4 bytes by a stub so that the loops unroll in seconds; the full 16384-byte loops run in the thorough harness c08_snapshot_refresh_copies_ram
-// @stub ZXMemory::ram_page_data -> first 4 bytes of the same page; ZXScreen::update -> witness recorder
+// @stub ZXMemory::ram_page_data -> a 4-byte head per page held in a harness table (the witness byte sits in the head of its bank); ZXScreen::update -> witness recorder
 // @replay solver-only
 #[kani::proof]
 #[kani::unwind(10)]
@@ -1174,13 +1178,13 @@ fn c08_snapshot_refresh_bank_pairing() {
     };
     let sel: u8 = kani::any();
     kani::assume(sel < 4);
-    {
-        let page = c.memory.ram_page_data_mut(bank);
+    unsafe {
+        crate::zx::memory::verif_hooks::PAGE_HEADS = [[0; 4]; 8];
         match sel {
-            0 => page[0] = d,
-            1 => page[1] = d,
-            2 => page[2] = d,
-            _ => page[3] = d,
+            0 => crate::zx::memory::verif_hooks::PAGE_HEADS[bank as usize][0] = d,
+            1 => crate::zx::memory::verif_hooks::PAGE_HEADS[bank as usize][1] = d,
+            2 => crate::zx::memory::verif_hooks::PAGE_HEADS[bank as usize][2] = d,
+            _ => crate::zx::memory::verif_hooks::PAGE_HEADS[bank as usize][3] = d,
         }
     }
     unsafe {
